@@ -144,8 +144,10 @@ def r01_1_filter(ctx, m, func, rule):
             return d_
         return b
 
-    ok = sl.lower is not None and norm(_bound(sl.lower)) == site.lo and sl.upper is not None and norm(_bound(sl.upper)) in (f"{site.hi} + 1", f"1 + {site.hi}") and sl.step is None
-    ctx.check(ok, rule, func.where(site.loop), "the search window (inclusive start, inclusive end) is scanned completely: [start : end + 1]", key_of(func, f"window-slice:{norm(site.loop.iter)}"), slice=norm(site.loop.iter))
+    conv = search_convention(m)
+    uppers = (site.hi,) if conv == "halfopen" else (f"{site.hi} + 1", f"1 + {site.hi}")
+    ok = sl.lower is not None and norm(_bound(sl.lower)) == site.lo and sl.upper is not None and norm(_bound(sl.upper)) in uppers and sl.step is None
+    ctx.check(ok, rule, func.where(site.loop), "the search window is scanned completely: [start : end + 1] for the inclusive window the search returns" if conv != "halfopen" else "the search window is scanned completely: [start : stop] for the half-open window the search returns", key_of(func, f"window-slice:{norm(site.loop.iter)}"), slice=norm(site.loop.iter), convention=conv)
     # search call arguments: same list, initial window covers the list
     a = site.search_call.args
     ok_args = len(a) == 5 and const_value(a[3]) == 0 and norm(a[4]) in (f"len({norm(a[0])})", f"len({norm(a[0])}) - 1")
@@ -192,6 +194,8 @@ def r01_1_search(ctx, m):
     iterative = bool(wloops) and any(x is mids[0] for x in ast.walk(wloops[0]))
     paths = enum_paths(wloops[0].body if iterative else f.node.body, rule="R01.1", where=f.where())
 
+    conv = search_convention(m)
+
     def outcome(p):
         if iterative and p.term in ("fall", "continue", "loopback"):
             asg = {norm(e.node.targets[0]): norm(e.node.value) for e in p.events if e.kind == "stmt" and isinstance(e.node, ast.Assign) and norm(e.node.targets[0]) in (lo, hi)}
@@ -212,10 +216,15 @@ def r01_1_search(ctx, m):
             if a[4] == hi and a[3] in (f"{mid} + 1",):
                 return "right"
             return "bad-window:" + ",".join(a[3:])
-        if isinstance(v, ast.Tuple) and [norm(x) for x in v.elts] == [lo, hi]:
+        if isinstance(v, ast.Tuple) and [norm(x) for x in v.elts] == [lo, hi] and conv != "halfopen":
             return "stop"
-        if isinstance(v, ast.Tuple) and all(const_value(x, 0) == -1 for x in v.elts):
-            return "empty"
+        if isinstance(v, ast.Tuple) and len(v.elts) == 2 and norm(v.elts[0]) == lo and norm(v.elts[1]) in (f"{hi} + 1", f"1 + {hi}") and conv == "halfopen":
+            return "stop"  # the same window, handed back half-open (every caller slices [first:stop], see the window-slice rule)
+        if isinstance(v, ast.Tuple) and len(v.elts) == 2 and all(isinstance(const_value(x, None), int) for x in v.elts):
+            a_, b_ = const_value(v.elts[0]), const_value(v.elts[1])
+            u_ = b_ if conv == "halfopen" else b_ + 1  # the slice [a_:u_] the callers take must be empty for every list
+            if (a_ >= 0 and 0 <= u_ <= a_) or (a_ < 0 and u_ == 0) or (a_ < 0 and u_ < 0 and u_ <= a_):
+                return "empty"
         return "other:" + norm(v)
 
     bad = None
@@ -356,6 +365,23 @@ def describe(env):
 # ---------------------------------------------------------------------------------------------
 
 
+def search_convention(m):
+    """how the interval search hands back its window: "closed" (lo, hi) or "halfopen" (lo, hi + 1), read from its returns"""
+    f = m.search
+    if len(f.params) < 5:
+        return "closed"
+    lo, hi = f.params[3], f.params[4]
+    convs = set()
+    for r in walk_own(f.node):
+        if isinstance(r, ast.Return) and isinstance(r.value, ast.Tuple) and len(r.value.elts) == 2 and norm(r.value.elts[0]) == lo:
+            b = norm(r.value.elts[1])
+            if b == hi:
+                convs.add("closed")
+            elif b in (f"{hi} + 1", f"1 + {hi}"):
+                convs.add("halfopen")
+    return "halfopen" if convs == {"halfopen"} else "closed"
+
+
 def r01_5(ctx, m):
     f, rec, n = m.to_stable
     call = m.merge_call
@@ -406,6 +432,8 @@ def r01_5(ctx, m):
     for st in f.node.body:
         if isinstance(st, ast.Assign) and isinstance(st.targets[0], ast.Name) and norm(st.value) == f"[{src_list}[0]]":
             acc = st.targets[0].id
+    if acc is None:
+        raise AnalysisError("R01.5", f.where(loop), f"cannot find the output list of the fold (a list initialised `[{src_list}[0]]` before the loop): the run being extended may be carried in local variables, which this rule does not follow")
     want = [f"{acc}[-1][0]", nxt[0], f"{acc}[-1][1]", nxt[1]]
     import re as _re
 
@@ -793,6 +821,19 @@ def r01_46_unstable(ctx, m):
         if minus is None or split is None:
             raise AnalysisError("R01.6", f.where(st), "cannot classify a path through the converter (input strand / interval-path flag not examined in a form this rule reads)")
         kinds.add(("minus" if minus else "plus") + ("-split" if split else "-bare"))
+        # `if start is None: start = -1` after the segment loop: the "no segment overlapped" path of a None-initialised
+        # running value (the loop never set it) — not one of the branches whose arithmetic this rule compares
+        none_reset = False
+        evs_ = list(p.events)
+        for i_, e in enumerate(evs_[:-1]):
+            if e.kind == "test" and canon_test(e.node, e.pol)[1] is True and canon_test(e.node, e.pol)[0].endswith(" is None"):
+                nm_ = canon_test(e.node, e.pol)[0][: -len(" is None")]
+                nx = evs_[i_ + 1]
+                in_loop = any(isinstance(l_, ast.For) and any(isinstance(x, ast.Assign) and norm(x.targets[0]) == nm_ for x in ast.walk(l_)) for l_ in ast.walk(f.node))
+                if nm_.isidentifier() and in_loop and nx.kind == "stmt" and isinstance(nx.node, ast.Assign) and norm(nx.node.targets[0]) == nm_ and isinstance(nx.node.value, (ast.Constant, ast.UnaryOp)):
+                    none_reset = True
+        if none_reset:
+            continue
         # loop-carried symbols
         syms = set()
         for fm in forms.values():
